@@ -118,7 +118,7 @@ def grammar_ok(pkts, n, content):
              '(type, hash, public-key algorithm, issuer); only the last one-pass packet has a non-zero flag octet',
     'n in 0..3 signers; per signer: creation time from {t, t, t+100} (ties), hash from 3, issuer from 3 key ids - all by symbolic index; content of 0..2 symbolic octets',
     cond_timeout={'q': 280, 't': 1200},
-    partitions={'q': [['n <= 1'], ['n == 2', 'h0 == 0 and h1 == 1'], ['n == 3', 'h0 == 0 and h1 == 1 and h2 == 2', 's0 == 0 and s1 == 1 and s2 == 2']],
+    partitions={'q': [['n <= 1']] + [['n == 2', 'h0 == 0 and h1 == 1', 't0 == %d' % a] for a in range(3)] + [['n == 3', 'h0 == 0 and h1 == 1 and h2 == 2', 's0 == 0 and s1 == 1 and s2 == 2']],
                 't': [['n <= 1'], ['n == 2', 'h0 == 0'], ['n == 2', 'h0 == 1'], ['n == 2', 'h0 == 2']] + [['n == 3', 't0 == %d' % a, 's0 == 0 and s1 == 1 and s2 == 2'] for a in range(3)]})
 def grammar(n: int, content: bytes, t0: int, t1: int, t2: int, h0: int, h1: int, h2: int, s0: int, s1: int, s2: int) -> bool:
     """
